@@ -156,6 +156,16 @@ def run_clone_check(prop, tier):
         mc_runs.append({"cfg": "CloneMC_crash_live.cfg", "distinct_states": res["stats"]["distinct"], "violated": res["violated"], "wall_s": res["wall_s"],
                         "property": "RestartCompletes (liveness under weak fairness of the clone steps)"})
         mc_violation(out, res, "CloneMC", "CloneMC_crash_live.cfg")
+        # the environment the CLI writes through: tokio::fs::File (write-behind, latched errors); the pinned tree's tail is a negative configuration
+        for cfg, expect_ok in (("TokioFile_regular.cfg", True), ("TokioFile_blockdev.cfg", True), ("TokioFile_NEG_noflush.cfg", False), ("TokioFile_NEG_noflush_blockdev.cfg", False)):
+            r2 = tlc_mc("TokioFile", cfg, workers=2, timeout=300, coverage=False)
+            mc_runs.append({"cfg": cfg, "distinct_states": r2["stats"]["distinct"], "violated": r2["violated"], "expected_violation": not expect_ok})
+            if expect_ok:
+                states += r2["stats"]["distinct"]
+                trans += r2["stats"]["generated"]
+                mc_violation(out, r2, "TokioFile", cfg)
+            elif r2["ok"]:
+                raise ToolError("negative configuration %s was not rejected" % cfg)
     # 2. replay into the real code and 3. trace validation
     variants = []
     for fam in plan["families"]:
